@@ -334,17 +334,18 @@ impl Valid {
     fn check_c07<K: SimKernel<D>, const D: usize>(
         &self,
         ctx: &mut StepCtx<'_, K, D>,
+        kind: &str,
         pre: &Snap,
         rv_pre: &Report,
         out: &Outcome,
         post: &Snap,
+        after: &crate::snap::Dt<K, D>,
     ) {
         if out.kind != OutKind::Ok {
             return;
         }
         let Some(info) = out.flip.clone() else { return };
         ctx.stats.evaluations += 1;
-        let kind = ctx.oprec.op.kind();
         let d = D;
         let mut fail = |ctx: &mut StepCtx<'_, K, D>, clause: &str, detail: String| {
             push_violation(ctx.violations, violation("C07", clause, ctx.step, format!("op={kind}|k={}|{clause}", info.k), detail));
@@ -441,14 +442,20 @@ impl Valid {
         if missing || actual_new != expected_new {
             fail(ctx, "new-cells-description", format!("info.new_cells vertex sets {:x?} != expected {:x?} (missing live cell: {missing})", actual_new, expected_new));
         }
+        // the created cells are exactly the cells containing the inserted face
+        let star: BTreeSet<u64> = post.cells.iter().filter(|c| inf.iter().all(|v| c.verts.contains(v))).map(|c| c.key).collect();
+        let newset: BTreeSet<u64> = info.new_cells.iter().copied().collect();
+        if star != newset {
+            fail(ctx, "inserted-face-star-differs-from-new-cells", format!("star of the inserted face has {} cells {:x?}, info.new_cells lists {} {:x?}", star.len(), star, newset.len(), newset));
+        }
         // exact inverse: apply the inverse move to the created face on a clone
         let geo_fine = {
             let mut g = Report::default();
             refval::level3(pre, Strength::Pseudomanifold, false, &mut g);
             g.geo_positive == Some(true)
         };
-        let Some(obj) = ctx.oprec.op.obj() else { return };
-        let Some(mut clone) = ctx.world.objs.get(obj).and_then(|o| o.as_ref()).cloned() else { return };
+        let obj = ctx.oprec.op.obj().unwrap_or(0);
+        let mut clone = after.clone();
         let k2u = post.key_to_uuid();
         let uu = |k: &u64| Hex128(k2u.get(k).copied().unwrap_or(0));
         let first_new = info.new_cells.first().and_then(|c| post_cells.get(c)).map(|c| (*c).clone());
@@ -535,9 +542,130 @@ impl<K: SimKernel<D>, const D: usize> Monitor<K, D> for Valid {
             | Op::FlipK3Inv { .. }
                 if self.c07 =>
             {
-                self.check_c07(ctx, pre, &rv_pre, out, post);
+                if let Some(dt_after) = op.obj().and_then(|o| ctx.world.objs.get(o)).and_then(|o| o.as_ref()).cloned() {
+                    self.check_c07(ctx, op.kind(), pre, &rv_pre, out, post, &dt_after);
+                }
             }
             _ => {}
         }
+        if self.c07 {
+            self.sweep_c07(ctx, post);
+        }
+    }
+}
+
+impl Valid {
+    /// Exhaustive-ish handle sweep: every facet, ridge, edge, triangle and vertex handle of the
+    /// current complex (sampled above a cap) is flipped on a clone and checked like a history flip.
+    fn sweep_c07<K: SimKernel<D>, const D: usize>(&self, ctx: &mut StepCtx<'_, K, D>, cur: &Snap) {
+        let Some(obj) = (match &ctx.oprec.op {
+            Op::CloneTo { target, .. } | Op::SaveLoad { target, .. } => Some(*target),
+            op => op.obj(),
+        }) else {
+            return;
+        };
+        let mut rng = crate::rng::Rng::sub(ctx.header.run_seed, "sweep", ctx.oprec.idx);
+        if cur.cells.is_empty() || !rng.chance(if D >= 4 { 2 } else { 1 }, 3) {
+            return;
+        }
+        let Some(mut base) = ctx.world.objs.get(obj).and_then(|o| o.as_ref()).cloned() else { return };
+        // flip-graph random walk: sweep the neighbourhood of the current state, step to one of the
+        // successful neighbours, sweep again (deep Edit-API histories that the op list need not spell out)
+        let walk = if D >= 4 { 4 } else { 2 };
+        let mut cur_owned = cur.clone();
+        for depth in 0..=walk {
+            let Some(next) = self.sweep_once(ctx, &mut rng, obj, &base, &cur_owned, depth) else { break };
+            cur_owned = Snap::of(&next);
+            base = next;
+            ctx.stats.bump("c07.walk_steps");
+        }
+    }
+
+    fn sweep_once<K: SimKernel<D>, const D: usize>(
+        &self,
+        ctx: &mut StepCtx<'_, K, D>,
+        rng: &mut crate::rng::Rng,
+        obj: usize,
+        base: &crate::snap::Dt<K, D>,
+        cur: &Snap,
+        depth: u64,
+    ) -> Option<crate::snap::Dt<K, D>> {
+        let rv = refval::validate(cur, strength_of(cur), false);
+        if !rv.ok_upto(2) || cur.cells.is_empty() {
+            return None;
+        }
+        let k2u = cur.key_to_uuid();
+        let u = |k: &u64| Hex128(k2u.get(k).copied().unwrap_or(0));
+        let mut ops: Vec<Op> = Vec::new();
+        let mut edges: BTreeSet<(u64, u64)> = BTreeSet::new();
+        let mut tris: BTreeSet<(u64, u64, u64)> = BTreeSet::new();
+        for c in &cur.cells {
+            let cref = CRef::Verts(c.verts.iter().map(&u).collect());
+            let n = c.verts.len();
+            for i in 0..n {
+                ops.push(Op::FlipK2 { obj, cell: cref.clone(), facet: i as u8 });
+                for j in i + 1..n {
+                    if D >= 3 {
+                        ops.push(Op::FlipK3 { obj, cell: cref.clone(), omit_a: i as u8, omit_b: j as u8 });
+                    }
+                    let (a, b) = (c.verts[i].min(c.verts[j]), c.verts[i].max(c.verts[j]));
+                    edges.insert((a, b));
+                    for l in j + 1..n {
+                        let mut t = [c.verts[i], c.verts[j], c.verts[l]];
+                        t.sort_unstable();
+                        tris.insert((t[0], t[1], t[2]));
+                    }
+                }
+            }
+        }
+        if D >= 3 {
+            for (a, b) in &edges {
+                ops.push(Op::FlipK2Inv { obj, a: VRef::Uuid(u(a)), b: VRef::Uuid(u(b)) });
+            }
+        }
+        if D >= 4 {
+            for (a, b, c) in &tris {
+                ops.push(Op::FlipK3Inv { obj, a: VRef::Uuid(u(a)), b: VRef::Uuid(u(b)), c: VRef::Uuid(u(c)) });
+            }
+        }
+        for v in &cur.verts {
+            ops.push(Op::FlipK1Remove { obj, v: VRef::Uuid(Hex128(v.uuid)) });
+        }
+        let cap = if ctx.thorough { 240 } else { 70 };
+        if ops.len() > cap {
+            rng.shuffle(&mut ops);
+            ops.truncate(cap);
+            ctx.stats.bump("c07.sweeps_sampled");
+        } else {
+            ctx.stats.bump("c07.sweeps_exhaustive");
+        }
+        let mut chosen: Option<crate::snap::Dt<K, D>> = None;
+        let mut n_ok = 0u64;
+        for (i, op) in ops.iter().enumerate() {
+            let mut c = base.clone();
+            let mut plan = ctx.plan(&[]);
+            plan.uuid_seed = crate::rng::derive(crate::rng::derive(ctx.header.run_seed, "sweep-uuid", ctx.oprec.idx), "walk", depth * 4096 + i as u64);
+            let o = run_mutator(&mut c, &plan, op);
+            ctx.stats.executions += 1;
+            *ctx.stats.outcome_classes.entry(format!("sweep:{}:{}", op.kind(), o.class())).or_insert(0) += 1;
+            match o.kind {
+                OutKind::Ok => {
+                    let post = Snap::of(&c);
+                    self.check_c07(ctx, op.kind(), cur, &rv, &o, &post, &c);
+                    // reservoir-sample the next walk state among the successful neighbours
+                    n_ok += 1;
+                    if rng.below(n_ok) == 0 {
+                        chosen = Some(c);
+                    }
+                }
+                OutKind::Err => {
+                    if let Some(d) = cur.diff(&Snap::of(&c)) {
+                        push_violation(ctx.violations, violation("C07", "refused-flip-changed-state", ctx.step, format!("op={}|result={}", op.kind(), o.class()), d));
+                    }
+                }
+                _ => {}
+            }
+        }
+        chosen
     }
 }
